@@ -121,11 +121,64 @@ def body(scn):
                 sample=dict(runlevel.small(scn), c_x0=c0, c_snapped=cs0, ncalls=len(tr.calls)))
 
 
+# ---------------------------------------------------------------------------------------------
+# Targeted construction for the start-point clause: a half-space whose boundary passes *between* the effective start
+# (random draw or repaired x0) and its mesh-snapped version, in both orientations. Either way the start is infeasible
+# before or after snapping, so the constructor must raise ValueError before any target call.
+# ---------------------------------------------------------------------------------------------
+GAP_PROFILE = scenario.profile(maxD=3, p_cons=0.0, extra_budget=(5, 20), p_x0_none=0.4, max_iter_choices=(2,), tol_mesh_choices=(None,),
+                               x0_classes=("interior", "near", "on_lb", "on_ub", "out_plausible", "at_plb"),
+                               noise_modes=("none", "none", "declared"), extra_options=False)
+N_GAP = {"quick": 128, "thorough": 2000}
+
+
+def gap_cases():
+    from hypothesis import strategies as st
+
+    @st.composite
+    def s(draw):
+        return dict(scn=draw(scenario.scenario(GAP_PROFILE)), snapped_feasible=draw(st.booleans()), ret=draw(st.sampled_from(["real", "bool"])))
+    return s()
+
+
+def body_gap(case):
+    scn = dict(case["scn"], cons=None)
+    pr = probe_start(scn)
+    labs = ["gap"]
+    if pr is None:
+        return dict(violations=[], labels=labs + ["gap:skipped-invalid"], nontrivial=False, oracle_evals=0, sample=None)
+    zs = scn["target"]["z"]
+    z0, z1 = T.zmap(zs, pr[0])[0], T.zmap(zs, pr[1])[0]
+    d = float(np.linalg.norm(z1 - z0))
+    if not d > 1e-6:
+        return dict(violations=[], labels=labs + ["gap:start-already-on-mesh"], nontrivial=False, oracle_evals=0, sample=None)
+    a = (z1 - z0) / d
+    if case["snapped_feasible"]:
+        a = -a  # feasible side (a.(z - zc) <= 0) contains the snapped point
+    cons = dict(kind="half", z=zs, ret=case["ret"], x0cls="gap", zc=((z0 + z1) / 2).tolist(), a=a.tolist(), b=0.0)
+    scn2 = dict(scn, cons=cons)
+    tr = harness.run(scn2)
+    v = []
+    c = lambda X: T.violation(dict(cons, ret="real"), X)  # noqa: E731
+    c0, c1 = float(c(pr[0])[0]), float(c(pr[1])[0])
+    tag = f"boundary between the effective start (c={c0:.3g}) and its snapped point (c={c1:.3g}), x0 {'omitted' if scn['x0'] is None else 'given'}"
+    if tr.ctor_exc is None:
+        v.append(viol("c:infeasible-start-accepted", f"{tag}: constructor accepted the problem", site="gap:" + ("x0" if c0 > 0 else "snap")))
+    elif tr.ctor_exc["type"] != "ValueError":
+        v.append(viol("c:infeasible-start-wrong-exception", f"{tag}: {tr.ctor_exc['type']}: {tr.ctor_exc['msg'][:100]}", exc_type=tr.ctor_exc["type"]))
+    if tr.calls:
+        v.append(viol("c:target-called-before-rejection", f"{tag}: {len(tr.calls)} target call(s)", site="gap"))
+    labs += ["gap:start-infeasible" if c0 > 0 else "gap:snapped-infeasible", "gap:x0-none" if scn["x0"] is None else "gap:x0-given"]
+    return dict(violations=v, labels=labs, nontrivial=True, oracle_evals=1, sample=dict(runlevel.small(scn2), c_x0=c0, c_snapped=c1))
+
+
 def plan(tier):
-    return [("runs", 16)]
+    return [("runs", 16), ("snapgap", 8)]
 
 
 def run_part(res, part, tier, seed, shard, nshards):
+    if part == "snapgap":
+        return runlevel.sweep(res, None, N_GAP[tier], seed + 53, shard, nshards, body_gap, strategy=gap_cases())
     runlevel.sweep(res, PROFILE if tier == "quick" else dict(PROFILE, maxD=5, extra_budget=(5, 200)), N[tier], seed, shard, nshards, body)
 
 
@@ -136,11 +189,16 @@ def _simp(s):
 
 
 def minimise(part, tier, sig, case, seed):
+    if part == "snapgap":
+        def simp(c):
+            for d, s2 in scenario.simplifications(c["scn"]):
+                yield d, dict(c, scn=s2)
+        return runlevel.field_minimise(case, sig, body_gap, max_runs=12, simplifier=simp)
     return runlevel.field_minimise(case, sig, body, max_runs=12 if tier == "quick" else 40, simplifier=_simp)
 
 
 def replay(part, case):
-    return runlevel.replay_body(body, case)
+    return runlevel.replay_body(body_gap if part == "snapgap" else body, case)
 
 
 def floors(tier):
